@@ -35,6 +35,8 @@ func checkC05(c *core.Ctx) {
 	c05SortOption(c)
 	c05Stores(c)
 	c05ClauseOrder(c)
+	c.Rule("ORDABS.dependencies-complete", "makeDepGraph, evaluated on one-rule programs with every premise kind (temporal literals with and without operator or interval included), records every dependency: a missing edge leaves two strata unordered and the facts derived then depend on map iteration order (obligation shared with C03)", 1)
+	c.Under("ORDABS.dependencies-complete", []string{rC03Graph}, func() { c03DepGraph(c) })
 }
 
 const (
